@@ -36,7 +36,7 @@ Schema(s) ==
          << DSec("u", {"MULTI","TITLE","NO_TITLE_DUPES"}, << DInt("x", "5") >>),
             DSec("kv", {"KEYSTRVAL"}, <<>>),
             WithFlags(DInt("dep", "1"), {"DEPRECATED"}),
-            WithFlags(DIntList("drop", <<"1">>), {"DEPRECATED","DROP"}),
+            WithFlags(DIntList("drop", <<>>), {"DEPRECATED","DROP"}),
             WithFlags(DInt("nd", "0"), {"NODEFAULT"}),
             WithFlags(DStrList("ndl", <<"q">>), {"NODEFAULT"}) >>
     [] s = 4 -> (* three levels, function *)
@@ -76,9 +76,24 @@ NamesHere == LET f == Top(ps) IN {f.sec.opts[i].name : i \in 1..Len(f.sec.opts)}
 StrTokens ==
   {TkStr(v) : v \in NamesHere \cup {"zz"} \cup ValuePool(sid) \cup TitlePool(sid)}
 
-CommentTokens == IF Mode = "comments" THEN {Tk("cmt", "c1", 0)} ELSE {}
+(* line breaks: at most NlBudget newlines per text keeps the space finite *)
+NlBudget == 2
+NlUsed == LET F[i \in 0..Len(hist)] == IF i = 0 THEN 0 ELSE F[i-1] + hist[i].nl + hist[i].nlin IN F[Len(hist)]
 
-Alphabet == {TkP(k) : k \in Punct} \cup StrTokens \cup CommentTokens
+CommentTokens ==
+  CASE Mode = "comments" -> {Tk("cmt", "c1", 0), Tk("cmt", "", 0)}
+    [] Mode = "lines"    -> {Tk("cmt", "c1", 0)} \cup
+                            (IF NlUsed < NlBudget THEN {[Tk("cmt", "c1\nc2", 0) EXCEPT !.nlin = 1]} ELSE {})
+    [] OTHER             -> {}
+
+(* a string value spanning two lines (literal newline inside double quotes) *)
+MultiLineTokens == IF Mode = "lines" /\ NlUsed < NlBudget THEN {[TkStr("p\nq") EXCEPT !.nlin = 1]} ELSE {}
+
+NlChoices == IF Mode = "lines" /\ NlUsed < NlBudget THEN {0, 1} ELSE {0}
+
+Alphabet ==
+  {[t EXCEPT !.nl = n] : t \in {TkP(k) : k \in Punct} \cup StrTokens \cup CommentTokens \cup MultiLineTokens,
+                         n \in NlChoices}
 
 (* ------------------------------------------------------------------ *)
 (* behaviour                                                           *)
@@ -94,6 +109,7 @@ Expected(p) ==
 Cfgs ==
   CASE Mode = "plain"     -> {ParseCfg(FALSE, FALSE, FALSE, 0, 0, 0)}
     [] Mode = "comments"  -> {ParseCfg(FALSE, c, FALSE, 0, 0, 0) : c \in BOOLEAN}
+    [] Mode = "lines"     -> {ParseCfg(FALSE, FALSE, FALSE, 0, 0, 0)}
     [] Mode = "ignore"    -> {ParseCfg(FALSE, FALSE, TRUE, 0, 0, 0)}
     [] Mode = "callbacks" -> {ParseCfg(FALSE, FALSE, FALSE, fp, fv, ff) :
                                 fp \in 0..2, fv \in 0..2, ff \in 0..1}
@@ -114,18 +130,22 @@ Feed(t) ==
   /\ UNCHANGED <<sid, pcfg, root0, done>>
 
 (* the text ends here: end of input is fed (unless the parse already failed) *)
-EndParse ==
+EndParse(n) ==
   /\ Len(done) < MaxParses
   /\ hist # <<>> \/ done = <<>>
-  /\ LET fin == IF ps.status = "more" THEN PStep(ps, TkEof) ELSE ps
-     IN /\ done' = Append(done, [toks |-> hist, exp |-> Expected(fin), root |-> RootOf(fin)])
+  /\ ps.status \in {"more", "fail", "unspec"}
+  /\ ps.status # "more" => n = 0
+  /\ LET eof == [TkEof EXCEPT !.nl = n]
+         fin == IF ps.status = "more" THEN PStep(ps, eof) ELSE ps
+         toks == IF ps.status = "more" THEN Append(hist, eof) ELSE hist
+     IN /\ done' = Append(done, [toks |-> toks, exp |-> Expected(fin), root |-> RootOf(fin)])
         /\ hist' = <<>>
         /\ ps' = [PInit(RootOf(fin), pcfg, "buf", FALSE, fin.cn, fin.vn, fin.fn)
                     EXCEPT !.status = IF Len(done) + 1 < MaxParses /\ fin.status # "unspec"
                                         THEN "more" ELSE "end"]
   /\ UNCHANGED <<sid, pcfg, root0>>
 
-Next == (\E t \in Alphabet : Feed(t)) \/ EndParse
+Next == (\E t \in Alphabet : Feed(t)) \/ (\E n \in NlChoices : EndParse(n))
 
 Spec == Init /\ [][Next]_vars
 
@@ -140,10 +160,10 @@ StartRoot == IF done = <<>> THEN root0 ELSE done[Len(done)].root
 RefNow(withEof) ==
   Meaning(StartRoot, FALSE, IF withEof THEN Append(hist, TkEof) ELSE hist, pcfg.nocase)
 P_C01_ViablePrefix ==
-  (Mode \in {"plain", "comments"} /\ ps.status \in {"more", "fail"}) =>
+  (Mode \in {"plain", "comments", "lines"} /\ ps.status \in {"more", "fail"}) =>
      RefNow(FALSE).st = ps.status
 P_C01_AcceptIffGrammar ==
-  (Mode \in {"plain", "comments"} /\ ps.status = "more") =>
+  (Mode \in {"plain", "comments", "lines"} /\ ps.status = "more") =>
      LET fin == PStep(ps, TkEof)
          ref == RefNow(TRUE)
      IN /\ (fin.status = "ok") <=> (ref.st = "ok")
@@ -153,6 +173,39 @@ P_C01_AcceptIffGrammar ==
 P_C06_Reported ==
   /\ ps.status = "fail" => ps.diags # <<>>
   /\ (ps.status = "more" /\ ~ps.depr) => ps.diags = <<>>
+
+(* C06: the first diagnostic names the line on which the offending token   *)
+(* ends: 1 + every newline before or inside the tokens read so far         *)
+RECURSIVE NewlinesIn(_)
+NewlinesIn(toks) == IF toks = <<>> THEN 0 ELSE Head(toks).nl + Head(toks).nlin + NewlinesIn(Tail(toks))
+P_C06_Position ==
+  ps.status = "fail" => /\ ps.diags[1].line = 1 + NewlinesIn(hist)
+                        /\ ps.diags[1].file = "buf"
+
+(* C15: comments are transparent - the same text without its comments has   *)
+(* the same verdict and the same values, with annotation support on or off *)
+StartPs == PInit(StartRoot, pcfg, "buf", FALSE, 0, 0, 0)
+P_C15_Transparent ==
+  (Mode \in {"comments", "lines"} /\ ps.status \in {"more", "fail"}) =>
+     LET q == PRun(StartPs, NoComments(hist))
+     IN /\ q.status = ps.status
+        /\ DenSec(RootOf(q)) = DenSec(RootOf(ps))
+        /\ (ps.status = "more" =>
+              LET a == PStep(ps, TkEof)  b == PStep(q, TkEof)
+              IN a.status = b.status /\ DenSec(RootOf(a)) = DenSec(RootOf(b)))
+
+(* C15: a comment immediately before the assignment of a scalar (flat       *)
+(* schema 1: every token is at top level) is that option's annotation      *)
+P_C15_Annotation ==
+  (Mode = "comments" /\ pcfg.comments /\ sid = 1 /\ ps.status = "more" /\ Top(ps).st = 0) =>
+     \A i \in 1..(Len(hist) - 3) :
+        LET idx == FindOpt(ps.stack[1].sec.opts, hist[i+1].v, pcfg.nocase)
+        IN (/\ hist[i].k = "cmt" /\ hist[i+1].k = "str" /\ hist[i+2].k = "=" /\ hist[i+3].k = "str"
+            /\ idx # 0
+            /\ ~IsList(ps.stack[1].sec.opts[idx])
+            /\ \A j \in (i+4)..(Len(hist)-1) :
+                  ~(hist[j].k = "str" /\ hist[j].v = hist[i+1].v /\ hist[j+1].k = "="))
+           => ps.stack[1].sec.opts[idx].cmt = hist[i].v
 
 (* C07 on the model: a user pointer is released at most once, and never     *)
 (* while the store still holds it                                          *)
